@@ -25,6 +25,11 @@ type Op struct {
 	// history returned (1-based), shifted right by AddrSh bits
 	AddrFrom int `json:"addr_from,omitempty"`
 	AddrSh   int `json:"addr_sh,omitempty"`
+	// apply_mem / apply_reg / rstore: the value is the very object the
+	// ValFrom-th register read of the history returned (1-based), not V
+	ValFrom int `json:"val_from,omitempty"`
+	// with ValFrom: the write width is the width of that value (W is ignored)
+	ValWidth bool `json:"val_width,omitempty"`
 }
 
 // InitBlock is an initial block of a Bytes memory.
@@ -38,6 +43,7 @@ type Trace struct {
 	Obj      string       `json:"obj"`                 // sparse | bytes | overlay | regs
 	BaseKind string       `json:"base_kind,omitempty"` // overlay: bytes | sparse
 	Init     []InitBlock  `json:"init,omitempty"`      // bytes / overlay-over-bytes
+	BytesIO  bool         `json:"bytes_io,omitempty"`  // regs: the memory space "io" is a byte memory (constants only) instead of a sparse one
 	Hidden   bool         `json:"hidden,omitempty"`    // constants handed in were narrowed from wider ones (hidden capacity with non-zero bytes behind their length)
 	Shared   bool         `json:"shared,omitempty"`    // the initial blocks are windows into one buffer (in trace order)
 	BaseOps  []Op         `json:"base_ops,omitempty"`  // overlay-over-sparse: stores applied to the base first
